@@ -341,7 +341,8 @@ def stages_C05(tier):
     # oversize: shapes whose jumps overflow the small operand range, inflated to real size
     out.append(Stage("oversize", "MC_VM",
                      mc_vm_cfg("oversize", 4 if tier == "quick" else 5, operand_mod=32, emit="ovcases", invariants=("EmitOv",)),
-                     "C05OV", modes="struct:noopt,struct:opt,none:noopt"))
+                     "C05OV", modes="struct:noopt,struct:opt,none:noopt",
+                     extra_args=["-ovstride", "9" if tier == "quick" else "2"]))
     # constant pool: a literal of 65534..65536 distinct constants followed by constants the optimizer creates
     out.append(Stage("ovconst", "MC_Expr", gen_cfg("ovconst", 8, emit="ovconst"), "C05OC", modes="struct:opt,struct:noopt",
                      extra_args=(["-ocstride", "9", "-ocsizes", "one"] if tier == "quick" else ["-ocstride", "2"])))
@@ -362,7 +363,9 @@ C05_RULE = ("(a) TLC model checking of MC_VM: every expression of each family up
             "(VM!WellFormed evaluated by TLC on the real bytes and constants); (c') every successful real run of every "
             "case of the evaluation corpora, on a caller-owned VM, leaves no value on the stack and no scope open; (d) oversize: every expression of family "
             "'oversize' (operand range 32) containing a literal longer than the range, inflated by the harness to 23000 "
-            "elements so the same jump offsets exceed 65535: Compile must reject it or its runs must conform; (e) constant "
+            "elements so the same jump offsets exceed 65535, and - for shapes with a loop - to every length from 21825 to "
+            "21852 elements, so that the code of the loop body ends within a few bytes of the 16-bit limit: Compile must "
+            "reject it or its runs must conform; (e) constant "
             "pool: every expression of family 'ovconst' containing a literal of 12 distinct constants, inflated to 65534, "
             "65535 and 65536 distinct integers and followed by ranges the optimizer folds into constants: Compile must "
             "reject it or every run must conform; "
@@ -513,7 +516,7 @@ def check_C15(tier):
 
 def stages_C14(tier):
     modes = "struct:noopt,struct:opt,ptr:noopt"
-    out = [Stage("promo-n3", "MC_Expr", gen_cfg("promo", 3), "C14", modes=modes),
+    out = [Stage("promo-n3", "MC_Expr", gen_cfg("promo", 3), "C14", modes=modes, extra_args=["-fullwidth", "1"]),
            Stage("arith-n%d" % (4 if tier == "quick" else 5), "MC_Expr", gen_cfg("arith", 4 if tier == "quick" else 5), "C14", modes=modes),
            Stage("promo-sim", "MC_Expr", gen_cfg("promo", 7), "C14", modes=modes,
                  simulate=400 if tier == "quick" else 5000, depth=9, warm=False)]
@@ -525,7 +528,11 @@ C14_RULE = ("TLC: every pair of the 12 Go numeric kinds (environment members I, 
             "arithmetic family with literals, and random nested combinations; the real result must have the value and "
             "kind Prim!Arith assigns under the reference rank (unsigned by width, signed by width, float32, float64; "
             "integer division truncates; integer division by zero fails), and the kind of the real result must be the "
-            "kind the real checker.Check reports")
+            "kind the real checker.Check reports; at full width: for every kind pair x operator the conversion rule the "
+            "specification emits (the kind both operands are converted to) is applied to 7-9 extrema per kind (minimum, "
+            "maximum, half range, 2^24+1, 2^53+1, 2^63, 2^64-1 as floats) by a math/big / float32 / float64 evaluator that "
+            "is first validated against the values TLC computed; integer division by zero must fail, float division "
+            "by zero must give an infinity or NaN")
 
 
 def check_C14(tier):
@@ -588,6 +595,11 @@ def stages_C10(tier):
         out.append(Stage("walk-%s-n%d" % (fam, n), "MC_Expr",
                          gen_cfg(fam, n, emit="walk", invariants=("EmitWalk", "WalkBalanced")), "C10",
                          modes="struct:noopt,struct:opt", timeout=1800))
+    # the optimizer's own visitors replace the root node like any other (Optimizer.tla gives the root's kind)
+    for fam, n in [("arith", 3), ("coll", 3), ("string", 3)]:
+        out.append(Stage("optroot-%s-n%d" % (fam, n), "MC_Opt",
+                         gen_cfg(fam, n, emit="optroot", invariants=("EmitOptRoot",), extra={"OptDevs": ("<-", "NoDevs")}), "C10",
+                         modes="struct:opt", timeout=1800))
     for fam in ("mixed", "coll", "builtin"):
         out.append(Stage("walk-%s-sim" % fam, "MC_Expr",
                          gen_cfg(fam, 12, maxclosure=3, emit="walk", invariants=("EmitWalk", "WalkBalanced")), "C10",
@@ -600,7 +612,10 @@ C10_RULE = ("TLC: every expression of six families up to the node budget (slices
             "event sequence (WalkBalanced checked in every state); the real ast.Walk over parser.Parse(Src(t)) must "
             "produce exactly that sequence of Enter/Exit events by node kind and enter no node twice; a Patch visitor "
             "replacing the literal 1 by 2 must make Compile(Src(t)) behave as Compile(Src(Walk!Patch(t))) on every "
-            "assignment (value, failure, call log), optimizer on and off")
+            "assignment (value, failure, call log), optimizer on and off; the same source compiled without the visitor before "
+            "and after the patching compilation yields identical programs (a replacement does not leak into another "
+            "compilation); and the tree after optimizer.Optimize - whose passes are visitors too - has the root kind "
+            "Optimizer.tla gives it (a replacement of the root node takes effect)")
 
 
 def check_C10(tier):
@@ -618,6 +633,8 @@ def stages_C17(tier):
             Stage("ovl-branches-n%d" % (n + 1), "MC_Expr",
                   gen_cfg("ovlb", n + 1, emit="ovl", invariants=("EmitOvl", "OvlTyped")), "C17", modes=modes, timeout=2400),
             Stage("ovl-table-n%d" % n, "MC_Expr", gen_cfg("ovl", n, emit="ovlt", invariants=("EmitOvlT",)), "C17",
+                  modes="struct:noopt,struct:opt", timeout=2400),
+            Stage("ovl-table-several-n7", "MC_Expr", gen_cfg("ovlt", 7, emit="ovlt", invariants=("EmitOvlT",)), "C17",
                   modes="struct:noopt,struct:opt", timeout=2400),
             Stage("ovl-sim", "MC_Expr", gen_cfg("ovl", 12, maxclosure=3, emit="ovl", invariants=("EmitOvl", "OvlTyped")),
                   "C17", modes=modes, simulate=1500 if tier == "quick" else 8000, depth=14, warm=False)]
@@ -808,6 +825,8 @@ def stages_C03(tier):
         out.append(Stage("reject-%s-n%d" % (fam, n), "MC_Err", err_cfg(fam, n, "reject"), "C03R",
                          modes="struct:opt,struct:noopt", timeout=2400))
     sim_n = 300 if tier == "quick" else 4000
+    out.append(Stage("sound-nest2-sim", "MC_Expr", gen_cfg("nest2", 12, maxclosure=2), "C03S", modes="struct:noopt,struct:opt",
+                     simulate=5 * sim_n, depth=14, warm=False))
     for fam in ("mixed", "builtin"):
         out.append(Stage("sound-%s-sim" % fam, "MC_Expr", gen_cfg(fam, 12, maxclosure=3), "C03S", modes=C03_MODES,
                          simulate=sim_n, depth=14, warm=False))
